@@ -177,7 +177,12 @@ where
         labels: &[L],
     ) -> DatasetBase<Array2<F>, CountedTargets<L, Array<L, T::Ix>>> {
         let targets = self.targets.as_targets();
-        let old_weights = self.weights();
+        // indexed through the array (not through `weights()`, which needs a contiguous slice)
+        let old_weights = if self.weights.is_empty() {
+            None
+        } else {
+            Some(&self.weights)
+        };
 
         let mut records_arr = Vec::new();
         let mut targets_arr = Vec::new();
